@@ -103,6 +103,11 @@ def damaged_models(rng, quick):
     out.append(("shell-grown-through-neighbour", m, None, None, dict(self=0)))
     m = base(); n, vs, ts = m["meshes"][2]; m["meshes"][2] = (n, [(v[0] + 0.45, v[1], v[2]) for v in vs], ts)
     out.append(("outer-shell-translated", m, None, inner_dips(3, 0.3), dict(self=0)))
+    # two shells only: the single (adjacent) pair intersects
+    m = models.nested([0.5, 1.0], [1.0, 0.33], level=lvl); n, vs, ts = m["meshes"][0]; m["meshes"][0] = (n, [(v[0] + 0.5, v[1], v[2]) for v in vs], ts)
+    out.append(("two-shells-inner-translated", m, None, None, dict(self=0)))
+    m = models.nested([0.5, 1.0], [1.0, 0.33], level=lvl)
+    out.append(("two-shells-clean+source-mesh", m, sphere(0.25, (0.1, 0.0, 0.0)), inner_dips(3, 0.3), dict(self=1, mesh=1, inner=1)))
     # non nested models: mesh/mesh intersections are not examined by selfCheck; dipoles are refused
     out.append(("siblings-clean", models.inclusions(1.0, [((0.45, 0, 0), 0.3, 1.0), ((-0.45, 0.1, 0), 0.3, 0.33)], 1.0, level=lvl), None, inner_dips(2, 0.2), dict(self=1, inner=0)))
     return out
